@@ -19,7 +19,9 @@ def dims(model, res):
     out = {'burntime': {'T': 1}, 'position_x': {'L': 1}, 'position_y': {'L': 1}, 'position_z': {'L': 1}}
     for cname in CLASSES:
         cls = model.get_class(cname)
-        b, S, ev = analyse_class(model, cls, {'r': {'L': 1}, 't': {'T': 1}}, out)
+        # documented dimensions of the parameters (detonation time / velocity / radius / position), shared with C08
+        scope = load_spec('c08_scope.json')['classes'].get(cname, {})
+        b, S, ev = analyse_class(model, cls, {'r': {'L': 1}, 't': {'T': 1}}, out, param_dims_spec=scope.get('param_dims'))
         findings_from(S, ev, PROP, 'C13.dim', res)
         anchored = [nm for nm, d, _ in ev.outputs if nm == 'burntime' and isinstance(d, Lin)]
         if not anchored:
